@@ -117,6 +117,10 @@ ASSUMPTIONS = [
     "documents the stype, guarded entry points other than __call__ on an incomplete module, and the rejection of "
     "an inadmissible NA strategy as such are NOT demanded by C12 (either outcome accepted; not compared with the "
     "model on a normal return)",
+    "after a FAILED completion (init_modules rejected the configuration) only 'some raise no later than the first "
+    "use, never a result' is demanded; retries / repeated raises on later assignments and the value of "
+    "is_fully_specified there are not judged, and the trace is compared with the model only up to that step; known "
+    "findings are keyed on the input situation, not on the exception type",
     "a None re-assignment of an attribute that was already supplied is outside the property (the key stays "
     "supplied; the model predicts what happens and the correspondence checks it)",
 ]
@@ -715,14 +719,14 @@ def run_lazy(case):
         use = use_probe(case.get("use", "call"))
         try:
             m = cls(*case["args"])
-        except ValueError:
+        except Exception:
             return {"ctor_raised": True, "fired": copy.deepcopy(cls.CALLS), "trace": [], "eager": None}
         trace = [lazy_obs(m, use, False)]
         for k, v in case["ops"]:
             try:
                 setattr(m, k, v)
                 raised = False
-            except ValueError:
+            except Exception:
                 raised = True
             trace.append(lazy_obs(m, use, raised))
         # the eager twin: constructed from the values held when init_modules was called
@@ -733,7 +737,7 @@ def run_lazy(case):
             try:
                 e = cls2(*vals)
                 eager = {"raised": False, "full": bool(e.is_fully_specified), "fired": cls2.CALLS}
-            except ValueError:
+            except Exception:
                 eager = {"raised": True, "fired": cls2.CALLS}
         return {"ctor_raised": False, "trace": trace, "eager": eager}
     with ctx_of(case["cls"] != "LinearBucketEncoder"):
@@ -798,7 +802,7 @@ def run_lazy_encoder(case):
     torch.manual_seed(case["seed"])
     try:
         m = make(case["eager"])
-    except ValueError as ex:
+    except Exception as ex:
         # the constructor itself completed the module and init_modules rejected the configuration
         return {"ctor_raised": True, "n_init": counted._n_init, "trace": [], "exc": None, "msg": str(ex)[:150]}
     o, _ = obs_of(m)
@@ -810,11 +814,8 @@ def run_lazy_encoder(case):
         raised = False
         try:
             setattr(m, k, None if v is None else vals[k])
-        except ValueError:
-            raised = True                         # init_modules rejected the configuration
-        except Exception as ex:
-            exc = C.exc_name(ex)
-            break
+        except Exception:
+            raised = True                         # init_modules rejected the configuration (any exception type)
         o, out = obs_of(m)
         o["raised"] = raised
         trace.append(o)
@@ -832,7 +833,7 @@ def run_lazy_encoder(case):
         try:
             make(["out_channels", "stats_list", "stype"])
             res["eager_rejects"] = False
-        except ValueError:
+        except Exception:
             res["eager_rejects"] = True
     return res
 
@@ -916,9 +917,9 @@ def oracle_frame(case, obs):
         rows = batch_rows(b, desc["n"])
         if not rec["ok"]:
             if (ts_spec is not None and ts_spec["cls"] == "TimestampEncoder" and ts_spec["na"] is None
-                    and any(r in miss for r in rows) and rec["exc"] == "AssertionError"):
+                    and any(r in miss for r in rows)):      # keyed on the input, whatever is raised
                 known = dict(key="timestamp-na-none-missing-raises",
-                             what="TimestampEncoder(na_strategy=None) raised AssertionError on a batch with a missing "
+                             what=f"TimestampEncoder(na_strategy=None) raised {rec['exc']} on a batch with a missing "
                                   "timestamp (PositionalEncoding/CyclicEncoding domain assertion)",
                              expected="an embedding per cell", observed=rec["msg"])
                 continue
@@ -1025,7 +1026,7 @@ def oracle_lazy(case, obs):
             return None
         only_call = case.get("use", "call") == "call"     # the property speaks of running the module
         for i, ((full, built, raised), o) in enumerate(zip(ref, obs["trace"])):
-            if (only_call and o["use_ok"] != full) or o["full"] != full:
+            if (only_call and o["use_ok"] != full and not raised) or o["full"] != full:
                 return dict(key="lazy-use-before-complete" if o["use_ok"] and not full else "lazy-refuses-complete",
                             what=f"after step {i}: module complete={full} but is_fully_specified={o['full']}, "
                                  f"a call {'succeeds' if o['use_ok'] else 'raises'}", expected=full, observed=o)
@@ -1033,11 +1034,22 @@ def oracle_lazy(case, obs):
             if o["fired"] != want:
                 return dict(key="lazy-build", what=f"after step {i}: init_modules ran {len(o['fired'])} time(s) with "
                                                    f"{o['fired']}, expected {want}", expected=want, observed=o["fired"])
-            if o["raised"] != raised:
-                return dict(key="lazy-rejection", what=f"step {i} raised={o['raised']}, expected {raised}: the "
-                                                       "completing assignment must raise exactly when init_modules "
-                                                       "rejects the configuration", expected=raised, observed=o)
-        if clean and obs["eager"] is not None and len(obs["trace"]) == len(ref):
+            if raised:
+                # a FAILED completion: only "some raise no later than the first use" is demanded (for this
+                # synthetic module, whose forward needs nothing, a later call may even run); what happens on
+                # later assignments (retry, raise again, repair) is not judged
+                if not (o["raised"] or not o["use_ok"]):
+                    return dict(key="lazy-rejection", what=f"step {i}: init_modules rejected the configuration but "
+                                                           "neither the assignment nor the first use raised",
+                                expected="a raise", observed=o)
+                failed = True
+                break
+            if o["raised"]:
+                return dict(key="lazy-rejection", what=f"step {i} raised although init_modules accepts the "
+                                                       "configuration", expected=False, observed=o)
+        else:
+            failed = False
+        if clean and not failed and obs["eager"] is not None and len(obs["trace"]) == len(ref):
             fired = obs["trace"][-1]["fired"]
             bad = case.get("bad")
             want_raise = bad is not None and any(v == bad for _, v in fired[0])
@@ -1068,11 +1080,19 @@ def oracle_lazy(case, obs):
         full = supplied == need
         completes = full and not was_full
         was_full = full
-        if o["raised"] != (bad and completes and i > 0):
-            return dict(key="lazy-differs-from-eager" if bad else f"lazy-encoder-raises:{case['cls']}",
-                        what=f"{case['cls']}(na_strategy={case.get('bad_na')}) on {case['stype']}: step {i} "
-                             f"raised={o['raised']}; the completing assignment must raise exactly when the eager "
-                             "constructor rejects the same configuration", expected=bad and completes, observed=o)
+        if bad and full:
+            # a FAILED completion (the eager constructor rejects this configuration): some raise no later than
+            # the first use, and never a result; retries / repeated raises on later assignments are not judged
+            if o["use_ok"] or (completes and i > 0 and not (o["raised"] or not o["use_ok"])):
+                return dict(key="lazy-differs-from-eager",
+                            what=f"{case['cls']}(na_strategy={case.get('bad_na')}) on {case['stype']}: after step "
+                                 f"{i} the module runs although the eager constructor rejects the same "
+                                 "configuration", expected="a raise, never a result", observed=o)
+            continue
+        if o["raised"]:
+            return dict(key=f"lazy-encoder-raises:{case['cls']}",
+                        what=f"{case['cls']} on {case['stype']}: step {i} raised although the eager constructor "
+                             "accepts the same configuration", expected=False, observed=o)
         runs = full and not bad
         if o["use_ok"] != runs or o["full"] != full:
             return dict(key="lazy-use-before-complete" if o["use_ok"] and not runs else "lazy-refuses-complete",
@@ -1352,7 +1372,7 @@ def coq_term(case, obs):
         ts = case["enc"].get("timestamp")
         b0 = obs["batches"][0]
         if ("time" in data and ts is not None and ts["cls"] == "TimestampEncoder" and case["batches"][0]["t"] == "all"
-                and (b0["ok"] or b0["exc"] == "AssertionError")):
+                and (b0["ok"] or (ts["na"] is None and bool(ts_missing_rows(case))))):
             raised = not b0["ok"]
             parts.append(f"check_time {H.cna(ts['na'])} {C.clist(data['time']['stats'], coq_time_stats)} "
                          + C.clist(data["time"]["cells"], lambda row: C.clist(row, lambda c: C.clist(c, C.cz)))
@@ -1378,10 +1398,16 @@ def coq_term(case, obs):
                 return None  # rejecting an inadmissible strategy is C13's clause: not compared on a normal return
             ctor = (f"construct nat stype_encoder_params stype_encoder_lazy_attrs (probe_init_ok {bad}) "
                     f"{C.clist(args, copt_nat)}")
+            if obs["ctor_raised"] and set(case["eager"]) != {"out_channels", "stats_list", "stype"}:
+                return None  # a rejected configuration refused before completion (fail fast): not fixed by C12
             if obs["ctor_raised"]:
                 return f"(is_raised ({ctor}) && Nat.eqb (List.length (fired (state_of ({ctor})))) {obs['n_init']}%nat)"
-            tr = C.clist(obs["trace"], lambda o: f"((({C.cbool(o['full'])}, {C.cbool(o['use_ok'])}), "
-                                                 f"{C.cbool(o['raised'])}), {o['n_init']}%nat)")
+            # the state machine is compared with the model only up to (excluding) a failed completion: what a
+            # module does after init_modules rejected its configuration is not fixed by the property
+            cut = next((i for i, o in enumerate(obs["trace"]) if o["raised"]), len(obs["trace"]))
+            trace, ops = obs["trace"][:cut], ops[:max(cut - 1, 0)]
+            tr = C.clist(trace, lambda o: f"((({C.cbool(o['full'])}, {C.cbool(o['use_ok'])}), "
+                                          f"{C.cbool(o['raised'])}), {o['n_init']}%nat)")
             model = (f"map (lazy_enc_obs {bad}) (lazy_trace stype_encoder_params stype_encoder_lazy_attrs {bad} "
                      f"{C.clist(args, copt_nat)} "
                      + C.clist(ops, lambda p: f"({cs(p[0])}, {copt_nat(p[1])})") + ")")
@@ -1395,11 +1421,13 @@ def coq_term(case, obs):
                     f"(fired (state_of ({ctor}))) {C.clist(obs['fired'], snap)})")
         if case.get("use", "call") != "call" and any(o["use_ok"] and not o["full"] for o in obs["trace"]):
             return None      # only "refuses to RUN" is demanded; the model mirrors the code's other guards
-        tr = C.clist(obs["trace"], lambda o: f"((({C.cbool(o['full'])}, {C.cbool(o['use_ok'])}), "
-                                             f"{C.cbool(o['raised'])}), {C.clist(o['fired'], snap)})")
+        cut = next((i for i, o in enumerate(obs["trace"]) if o["raised"]), len(obs["trace"]))
+        trace, pops = obs["trace"][:cut], case["ops"][:max(cut - 1, 0)]
+        tr = C.clist(trace, lambda o: f"((({C.cbool(o['full'])}, {C.cbool(o['use_ok'])}), "
+                                      f"{C.cbool(o['raised'])}), {C.clist(o['fired'], snap)})")
         return (f"lazy_trace_eqb (lazy_trace {C.clist(PROBE_PARAMS, cs)} {C.clist(case['lazy'], cs)} {bad} "
                 f"{C.clist(case['args'], copt_nat)} "
-                + C.clist(case["ops"], lambda p: f"({cs(p[0])}, {copt_nat(p[1])})") + f") {tr}")
+                + C.clist(pops, lambda p: f"({cs(p[0])}, {copt_nat(p[1])})") + f") {tr}")
     # reject
     bad, unbacked = reject_verdict(case)
     if bad is None and unbacked is not None and not obs["raised"]:
